@@ -8,7 +8,7 @@ mkdir -p out evidence
 (cd extract && go build -o bin/extract .) || echo "setup: extractor build failed"
 ./extract/bin/extract -repo /repo -lean lean/TarsModel/Generated/Consts.lean -fp out/fingerprints.json || true
 cp /repo/go.sum harness/go.sum
-for cfg in checks/C*.json; do
+for p in $(cat checks/ready.txt); do cfg=checks/$p.json
   props=$(python3 -c "import json,sys;c=json.load(open('$cfg'));print(c['lean_props'], c['model_exe'])")
   (cd lean && lake build $props) || echo "setup: lean build failed for $cfg"
   for h in $(python3 -c "import json;c=json.load(open('$cfg'));h=c['harness'];print(' '.join(h if isinstance(h,list) else [h]))"); do
